@@ -247,9 +247,13 @@ func c13OneSeed(scratch, binDir string, dirs []directive, seed uint64, idx int, 
 	chunks := make([][]int, nChunks)
 	lastDir, ci := "", -1
 	for i, d := range dirs {
-		if d.Dir != lastDir {
+		group := d.Dir
+		if d.Fixture {
+			group = "<fixtures>" // all fixture packages are generated in one copy (their output is compared as a whole)
+		}
+		if group != lastDir {
 			ci++
-			lastDir = d.Dir
+			lastDir = group
 		}
 		chunks[ci%nChunks] = append(chunks[ci%nChunks], i)
 	}
@@ -300,8 +304,8 @@ func c13OneSeed(scratch, binDir string, dirs []directive, seed uint64, idx int, 
 				}
 				return nil
 			})
-			for pass := 0; pass < passes; pass++ {
-				for _, i := range chunks[c] {
+			runDirs := func(idxs []int, pass int) bool {
+				for _, i := range idxs {
 					d := dirs[i]
 					env := []string{
 						"GOPACKAGE=" + d.Pkg, "GOFILE=" + d.File, "GOLINE=" + strconv.Itoa(d.Line), "DOLLAR=$",
@@ -317,8 +321,20 @@ func c13OneSeed(scratch, binDir string, dirs []directive, seed uint64, idx int, 
 					mu.Unlock()
 					if err != nil {
 						fail(fmt.Sprintf("%s in %s (%s) failed: %v\n%s", d.Gen, d.Dir, d.File, err, tail(out, 1500)))
-						return
+						return false
 					}
+				}
+				return true
+			}
+			var fixIdx []int
+			for _, i := range chunks[c] {
+				if dirs[i].Fixture {
+					fixIdx = append(fixIdx, i)
+				}
+			}
+			for pass := 0; pass < passes; pass++ {
+				if !runDirs(chunks[c], pass) {
+					return
 				}
 				if pass == 0 {
 					g, _ := generatedFiles(B)
@@ -360,6 +376,15 @@ func c13OneSeed(scratch, binDir string, dirs []directive, seed uint64, idx int, 
 					mu.Unlock()
 					return
 				}
+			}
+			if passes == 1 && len(fixIdx) > 0 {
+				// the fixtures start without any generated file: a second run on top of the first output must not change it
+				if !runDirs(fixIdx, 1) {
+					return
+				}
+				mu.Lock()
+				res.fixOut = append(res.fixOut, fixtureOutput(B))
+				mu.Unlock()
 			}
 		}(c)
 	}
